@@ -70,26 +70,102 @@ class HarnessError(Exception):
     pass
 
 
-def _warm_opcode_tracing():
-    """CPython 3.12 enables INSTRUCTION events for sys.settrace only from the first
-    sys.settrace() call made *after* some frame has set f_trace_opcodes.  Without this
-    warm-up the first evalbreaker-granularity run of a process would miss events
-    (observed: 22 instead of 44 steps), breaking seed -> schedule determinism."""
-    def probe():
-        return 1
+class _Monitor:
+    """Eval-breaker granularity through sys.monitoring (PEP 669).
 
-    def tr(frame, event, arg):
-        frame.f_trace_opcodes = True
+    CPython 3.12 can hand the GIL over only where the eval loop checks its "eval breaker":
+    at RESUME (function entry, generator resumption), at backward jumps, and on return from
+    a call into C.  Exactly these are observable as monitoring events, so no per-instruction
+    tracing is needed:
+        PY_START / PY_RESUME  -> RESUME of a pendulum frame
+        JUMP with dst < src   -> JUMP_BACKWARD
+        C_RETURN              -> a C callee returned (needs CALL monitoring)
+        CALL of a Python callee outside pendulum -> stands for that callee's RESUME
+    (An earlier implementation used sys.settrace opcode events; CPython 3.12.1 crashes with a
+    segmentation fault when an exception propagates out of a C callee while two threads are
+    traced that way, so it was replaced.)
+    """
+
+    def __init__(self):
+        self.mon = sys.monitoring
+        self.tool = self.mon.PROFILER_ID
+        self.by_tid = {}
+        self.local_set = set()
+        self.registered = False
+        E = self.mon.events
+        self.GLOBAL = E.PY_START | E.PY_RESUME
+        self.LOCAL = E.JUMP | E.CALL | E.C_RETURN | E.C_RAISE
+
+    def _register(self):
+        if self.registered:
+            return
+        m, E = self.mon, self.mon.events
+        m.use_tool_id(self.tool, "pendulum-sim")
+        m.register_callback(self.tool, E.PY_START, self._py_start)
+        m.register_callback(self.tool, E.PY_RESUME, self._py_start)
+        m.register_callback(self.tool, E.JUMP, self._jump)
+        m.register_callback(self.tool, E.CALL, self._call)
+        m.register_callback(self.tool, E.C_RETURN, self._c_return)
+        self.registered = True
+
+    def enable(self):
+        self._register()
+        self.mon.set_events(self.tool, self.GLOBAL)
+        self.mon.restart_events()
+
+    def disable(self):
+        self.mon.set_events(self.tool, 0)
+        for code in self.local_set:
+            self.mon.set_local_events(self.tool, code, 0)
+        self.local_set.clear()
+        self.by_tid.clear()
+
+    def attach(self, tid, sched, actor):
+        self.by_tid[tid] = (sched, actor)
+
+    def detach(self, tid):
+        self.by_tid.pop(tid, None)
+
+    # ---- callbacks (run in the thread that executes the code)
+    def _py_start(self, code, offset):
+        if not is_traced(code):
+            return self.mon.DISABLE
+        ent = self.by_tid.get(threading.get_ident())
+        if ent is None:
+            return None
+        if code not in self.local_set:
+            self.local_set.add(code)
+            self.mon.set_local_events(self.tool, code, self.LOCAL)
+        ent[0]._step(ent[1], code, code.co_firstlineno)
         return None
 
-    sys.settrace(tr)
-    try:
-        probe()
-    finally:
-        sys.settrace(None)
+    def _jump(self, code, src, dst):
+        if dst >= src:
+            return self.mon.DISABLE     # forward jump: never a hand-over point
+        ent = self.by_tid.get(threading.get_ident())
+        if ent is not None:
+            ent[0]._step(ent[1], code, dst)
+        return None
+
+    def _call(self, code, offset, callable_, arg0):
+        ent = self.by_tid.get(threading.get_ident())
+        if ent is None:
+            return None
+        co = getattr(callable_, "__code__", None)
+        if co is not None and not is_traced(co):
+            # an untraced Python callee: its RESUME is a hand-over point and it touches no
+            # pendulum state, so the switch is equivalent to one right here
+            ent[0]._step(ent[1], code, offset)
+        return None
+
+    def _c_return(self, code, offset, callable_, arg0):
+        ent = self.by_tid.get(threading.get_ident())
+        if ent is not None:
+            ent[0]._step(ent[1], code, offset)
+        return None
 
 
-_warm_opcode_tracing()
+MONITOR = _Monitor()
 
 
 class Actor:
@@ -183,46 +259,9 @@ class Scheduler:
 
             return gtrace
 
-        # evalbreaker granularity ------------------------------------------
-        stack = a.stack
-
-        def local_op(frame, event, arg):
-            if event == "opcode":
-                code = frame.f_code
-                cb = _code_bytes.get(code)
-                if cb is None:
-                    cb = code.co_code
-                    _code_bytes[code] = cb
-                op = cb[frame.f_lasti]
-                ent = stack[-1]
-                prev = ent[0]
-                ent[0] = op
-                cand = False
-                if op == _RESUME or op == _JB:
-                    cand = True
-                elif prev in _CALLS:
-                    if ent[1]:
-                        ent[1] = False   # callee was a traced pendulum frame: no hand-over here
-                    else:
-                        cand = True
-                if cand:
-                    step(a, code, frame.f_lineno)
-            elif event == "return":
-                if stack:
-                    stack.pop()
-            return local_op
-
-        def gtrace_op(frame, event, arg):
-            if event == "call" and is_traced(frame.f_code):
-                frame.f_trace_opcodes = True
-                frame.f_trace_lines = False
-                if stack:
-                    stack[-1][1] = True
-                stack.append([None, False])
-                return local_op
-            return None
-
-        return gtrace_op
+        # evalbreaker granularity: yield points come from sys.monitoring (see _Monitor below);
+        # no sys.settrace function is installed for this actor
+        return None
 
     # ------------------------------------------------------------- decisions
     def _runnable(self):
@@ -343,13 +382,19 @@ class Scheduler:
     # ------------------------------------------------------------------- run
     def _thread_main(self, a: Actor):
         a.sem.acquire()
-        sys.settrace(a.gtrace)
+        if self.gran == "line":
+            sys.settrace(a.gtrace)
+        else:
+            MONITOR.attach(threading.get_ident(), self, a)
         try:
             a.fn(a)
         except BaseException as e:  # harness failure, never a property verdict
             a.error = e
         finally:
-            sys.settrace(None)
+            if self.gran == "line":
+                sys.settrace(None)
+            else:
+                MONITOR.detach(threading.get_ident())
             a.alive = False
             a.waiting = False
             r = self._runnable()
@@ -376,6 +421,8 @@ class Scheduler:
             self.rng.shuffle(order)
             for p, i in enumerate(order):
                 self.actors[i].prio = p + 1
+        if self.gran != "line":
+            MONITOR.enable()
         for a in self.actors:
             t = threading.Thread(target=self._thread_main, args=(a,), name="sim-" + a.name, daemon=True)
             a.thread = t
@@ -391,7 +438,10 @@ class Scheduler:
         self.first = first.name
         self.current = first
         first.sem.release()
-        if not self.done.wait(timeout):
+        finished = self.done.wait(timeout)
+        if self.gran != "line":
+            MONITOR.disable()
+        if not finished:
             import faulthandler
 
             faulthandler.dump_traceback(file=sys.stderr)
